@@ -34,6 +34,18 @@ CHECKS = {
             "violation with the journalled case). Sampling plus an exhaustive sweep of a small family; not a proof.",
             "Trusted: Python fractions, numpy; points never denormal (FTZ/DAZ).",
             "DESIGN.md section 2, C02"),
+    "C03": ("exploration",
+            "Hypothesis-generated refinement histories x form library x geometries; oracle = the definition "
+            "A[i,j] = R_i^T A_L R_j (L = finer level) built from an independent tensor-product reference assembly and "
+            "exact knot-insertion representations",
+            "assemble(form, HSpace) for generated histories (HB/THB, disparity inf/1/2, bdspecs None/[]/faces), mass / "
+            "Laplace / nonsymmetric convection with input field and parameter / L2 functionals with parametric and "
+            "physical data, on affine, curved B-spline and NURBS geometries, is compared entrywise with the level-wise "
+            "definition (quadrature of the finer level), THB results with the congruence by a definition-based THB-to-HB "
+            "matrix, symmetric with general assembly, and (polynomial integrands) with I^T A_fine I. The on-demand "
+            "assemblers are JIT-compiled once per run. Sampling, not proof; dim 3 and 4 levels only in the thorough tier.",
+            "Trusted: vp/ref/forms.py, vp/ref/hier.py, vp/ref/bspl.py.",
+            "DESIGN.md section 2, C03"),
     "C04": ("exploration",
             "exhaustive itertools enumeration of all short refinement histories on tiny meshes + Hypothesis-generated "
             "longer histories (model-based: every call is replayed on a reference model of nested cell sets)",
